@@ -591,6 +591,14 @@ def check_flatten(rep, ctx, tier):
         for x in evs:
             if x.kind == "call" and x.callee.endswith("HashMap::contains_key"):
                 pass
+    # the grant must not depend on WHERE in a list of the rule document an entry stands: positional iterator adaptors (a prefix up to the first
+    # failing element, the first n, every other one ...) over the document's lists make the result order dependent
+    POS = re.compile(r"(Iterator>?::|::)(take_while|skip_while|map_while|take|skip|step_by|nth|last|scan)$")
+    pos = sorted({e.callee.split("::")[-1] for r in paths for e in r.events if e.kind == "call" and POS.search(e.callee)})
+    rep.add(Query("from_authorization_item: no positional iterator adaptor over the rule document's lists (the grant does not depend on an entry's position)", "holds" if not pos else "violated",
+                  "adaptors used: %s" % pos, 0, "mirsym", key="C02.flatten.position-independent", reproduced=None))
+    if pos:
+        n_setins = max(n_setins, 1)        # (the set is filled through an adaptor chain: the insert events are inside extend())
     if "C02.flatten.no-overwrite" not in seen_viol:
         rep.add(Query("from_authorization_item: every creation of an assignment entry is guarded by `privilege has no entry yet` and creates an empty set (%d insert events on %d paths)" % (n_ins, len(paths)),
                       "holds", "", 0, "mirsym+z3", key="C02.flatten.no-overwrite"))
